@@ -8,38 +8,61 @@ GENERATED = []
 SOURCES = ["src/allmydata/immutable/upload.py", "src/allmydata/immutable/encode.py", "src/allmydata/immutable/layout.py",
            "src/allmydata/util/happinessutil.py", "src/allmydata/storage/immutable.py", "src/allmydata/storage/server.py"]
 DESIGN_REF = "DESIGN.md §2 C06"
-TECHNIQUE = ("Lean 4 invariant proofs over a model of the upload decision: selector test, CHKUploader.set_shareholders (with its "
-             "assertion), the Encoder push phase as a state machine over shareholder-loss events (_remove_shareholder recomputing "
-             "C08's servers_of_happiness on the whole remaining servermap), WriteBucketProxy.close = flush + remote close, answers "
-             "after the error, and UploadResults as a function of the surviving landlords; correspondence of recorded failure scripts "
-             "from real uploads on the in-process grid (outcome, placed, servermap, UploadResults maps/counters, visible shares); "
-             "the selector's answer history (get_buckets / allocate_buckets answers and errors over all rounds) replayed through the model of "
-             "its bookkeeping (on C08's SelState) and compared with what the code hands to set_shareholders; "
-             "monitor recomputing happiness from the share files on disk")
-LEVEL_TEXT = ("Proved for every pre-existing layout, allocation, failure script and answer order: success implies a matching of >= happy "
-              "(server, share) pairs among pre-existing shares and surviving landlords (C08's happiness function, reused), every share "
-              "UploadResults reports is a surviving landlord on the named server, closed, with no failed write; the unhappiness error is "
-              "raised iff the surviving set cannot meet the threshold (under the dict / no-double-allocation hypotheses); on the error every "
-              "bucket writer was aborted and every share whose remote close may have been issued received all its bytes. Tied to the "
-              "code by replaying, in the model, the true set_shareholders inputs and the failure sequence recorded from real uploads with "
-              "injected faults. Server selection is modelled as bookkeeping over any history of answers (proved: what is handed over, too few servers => error, no granted "
-              "bucket leaks, composed success theorem); which shares are asked of which server and the stopping rule are C07's. storage semantics "
-              "of abort/close is C22.")
-LEVEL_NOTE = ("Lean kernel + standard axioms; the happiness function is C08's model of servers_of_happiness (proved there to be the "
-              "maximum matching number), abstract in the bookkeeping theorems; hand-written model; real uploads run on harness/grid.py "
-              "with fault hooks.")
-RULE = ("fixed corpus (one scenario per known mechanism) first; seeded grids (1..8 servers, read-only/full/erroring servers, pre-existing shares from an earlier upload) x k/happy/N x file sizes; "
-        "faults = error on the i-th call of allocate_buckets/write/close per server; concurrent family: two uploads of the same file, the first "
-        "frozen between allocation and close, then timed out / disconnected / failed / completed. A case is one upload; distinct = distinct "
-        "(grid shape, fault script, outcome); non-trivial = at least one fault fired or a pre-existing share was found or the outcome is unhappy.")
-TRUSTED = ["harness/grid.py fault hooks",
+TECHNIQUE = ("Lean 4 invariant proofs over two executable models: (1) the upload decision (UploadDecision.lean): selector's final "
+             "happiness test, CHKUploader.set_shareholders with its assertion, the Encoder push phase as a state machine over "
+             "shareholder-loss events (_remove_shareholder recomputing servers_of_happiness on the whole remaining servermap), "
+             "WriteBucketProxy.close = final flush + remote close, answers arriving after the error, UploadResults as a function of "
+             "the surviving landlords; (2) server selection (UploadSelection.lean): the bookkeeping of "
+             "Tahoe2ServerSelector.get_shareholders over any history of get_buckets / allocate_buckets answers and errors in any "
+             "number of rounds, on C08's SelState, composed with (1). The happiness function is C08's model of servers_of_happiness "
+             "(reused, not copied). Correspondence: real uploads on the in-process grid with injected faults; the recorded "
+             "set_shareholders inputs, failure script and selector answer history are replayed in the driver and outcome, shares placed, "
+             "final servermap, UploadResults sharemap/servermap/pushed/preexisting, handed-over (pre-existing map, allocation) and the "
+             "visible shares are compared. Monitor written from the statement: happiness recomputed (own Kuhn matching) from the "
+             "complete share files in the servers' final directories, every reported or found share complete on the named server, "
+             "cap readable, nothing incomplete visible.")
+LEVEL_TEXT = ("Proved (14 theorems, no _partial, no open finding) for every pre-existing layout, allocation, failure script, answer order "
+              "and late-answer tail: success_layout_has_matching / success_is_happy (success => a matching of >= happy (server, share) "
+              "pairs among pre-existing shares and the landlords that survived); reported_shares_on_named_server / "
+              "placed_shares_complete (UploadResults names exactly the surviving landlords, on the server that granted them, closed, no "
+              "failed write; pushed_shares = their number); unhappy_iff_survivors_below_threshold (error iff the surviving set cannot "
+              "meet the threshold, under the dict / no-double-allocation hypotheses), loss_rechecks_whole_layout, "
+              "unhappy_selection_fails, success_needs_happy_pushed_allocation, assertion_iff_duplicate_allocation (the only third exit: "
+              "the set_shareholders assertion of DESIGN 8.9, outside the statement); failure_leaves_no_partial_share (on the error every "
+              "bucket writer was aborted and every share whose remote close may have been issued received all its bytes). Composed "
+              "with server selection for every history of answers: selection_hands_over, too_few_servers_fails, "
+              "selected_allocations_never_leak, selected_success_layout_has_matching. Not covered by theorems (as in the coverage "
+              "table of Props/C06.lean): which shares the selector asks of which server and when its loop stops (C07; the history is "
+              "arbitrary here, a superset), hence whether a happier layout was reachable; completeness of the pre-existing shares and "
+              "the storage semantics of abort/close (C22) are assumptions, monitored.")
+LEVEL_NOTE = ("Lean kernel + standard axioms (propext, Classical.choice, Quot.sound); no Mathlib. The matching theorems use C08's "
+              "serversOfHappiness (proved there to be the maximum matching number), the bookkeeping theorems hold for any happiness "
+              "function; hand-written models tied by replay of recorded histories; real uploads run on harness/grid.py (virtual clock, "
+              "seeded delivery order) with fault hooks. Seeded changes C06-a..e are each caught by a fixed corpus case "
+              "(VERIF_CORPUS_ONLY=1) with a monitor violation.")
+RULE = ("fixed corpus first (19 scenarios, independent of the seed: duplicate-holder loss, lost write, lost writer with UploadResults, "
+        "second upload while the first is stalled, second allocation round with a doubly allocated share); then seeded single uploads "
+        "(grids of 1..8 servers, read-only / full / broken servers, pre-existing shares from an earlier upload, k/happy/N, file sizes, "
+        "WriteBucketProxy batch size 1 MB / 200 / 40 so that write phases issue remote writes; faults = error on the i-th or on every "
+        "call of allocate_buckets / write / close per server; duplicate-holder and push-fault families), concurrent uploads of one file "
+        "(the first frozen between allocation and close, then timed out / disconnected / failed / completed) and tight grids with "
+        "servers failing allocate_buckets (second placement rounds). A case is one upload; distinct = distinct (grid shape, fault "
+        "script, outcome); non-trivial = a fault fired, a pre-existing share was found, or the outcome is not a plain success. Plus "
+        "300 random sharemaps: happinessutil.servers_of_happiness vs the driver's soh vs an independent matching.")
+TRUSTED = ["harness/grid.py (in-process grid, virtual clock, seeded scheduler, fault hooks)",
            "observation hooks in harness/props/c06.py (CHKUploader.set_shareholders, Encoder.set_shareholders/_remove_shareholder, "
            "Tahoe2ServerSelector._failed/_handle_existing_response/_handle_existing_write_response/_buckets_allocated, "
-           "WriteBucketProxy._actually_write): pass-through wrappers"]
-ASSUMPTIONS = ["bucket writer abort deletes the incoming share, only close makes it visible (C22)",
-               "the pre-existing shares handed to the model are complete shares: get_buckets / alreadygot name final shares only (C22); "
-               "monitored on concurrent uploads of the same file",
-               "the happiness function of the code is the one of the model (cross-checked: driver's soh vs happinessutil on every case, and C08)"]
+           "WriteBucketProxy._actually_write): pass-through wrappers",
+           "WriteBucketProxy batch_size set through the constructor default in some scenarios (a production parameter, restored afterwards)",
+           "lean/Drv/C06.lean parsers and printers"]
+ASSUMPTIONS = ["a bucket writer's abort deletes the unfinished share and only close makes a share visible to readers (C22 visible_iff_closed); "
+               "monitored: no incomplete share is ever visible",
+               "the pre-existing shares the selector is told about (get_buckets answers) are complete, reader-visible shares (C22); "
+               "monitored on concurrent uploads of the same file (signature success-counts-incomplete-shares)",
+               "the happiness function of the code is the one of the model: C08's theorems, plus happinessutil vs the driver's soh vs an "
+               "independent matching on every run",
+               "unhappy_iff_survivors_below_threshold assumes dict inputs and that no server is granted a share it already reported "
+               "(0 real cases excluded in 4000 thorough scenarios; without it the code under-counts, the safe direction)"]
 
 
 def max_matching(sharemap):
